@@ -10,6 +10,7 @@ import CedarVerif.Driver.Ops.Json
 import CedarVerif.Driver.Ops.Partial
 import CedarVerif.Driver.Ops.NoPanic
 import CedarVerif.Driver.Ops.Ffi
+import CedarVerif.Driver.Ops.FfiPolicies
 import CedarVerif.Driver.Ops.Tyck
 import CedarVerif.Driver.Ops.SchemaSyntax
 import CedarVerif.Driver.Ops.SymCC
@@ -39,6 +40,7 @@ def handlers : List (Sexp → Option String) := [
   Ops.handlePartial,
   Ops.handleNoPanic,
   Ops.handleFfi,
+  Ops.FfiPols.handleFfiPols,
   Ops.handleTyck,
   Ops.handleSchemaSyntax,
   Ops.SymCCOp.handleSymCC,
